@@ -125,9 +125,11 @@ inductive Ev
   | trailers (t : Bytes)                    -- h2: END_STREAM carried by trailers
   | endStream                               -- h2: END_STREAM
   | rst                                     -- h2: RST_STREAM
+  | redispatch                              -- handler lost before the response started: the request
+                                            -- would be dispatched again (not followed further)
 deriving Repr, DecidableEq
 
-inductive CState | handle | write | done
+inductive CState | handle | write | done | redispatch
 deriving Repr, DecidableEq
 
 structure St where
@@ -237,9 +239,11 @@ def dechunkAppend (st : St) (data : Bytes) : St × Bool :=
       match d'.mode with
       | .err => ({ st1 with dc := some d'' }, false)
       | .done acc =>
-        let st2 : St := { st1 with dc := some d'', dcDone := st.status, trailerBuf := acc }
-        let st3 : St := if st.status ≠ 0 then { st2 with finished := true } else st2
-        (if st.sendChunked then { st3 with wq := st3.wq ++ data } else st3, true)
+        -- (`done` records the response status; the pinned C stores 0 for a CGI-style response
+        --  without Status header and then never finishes the response: reported defect)
+        let st2 : St := { st1 with dc := some d'', dcDone := if st.status = 0 then 200 else st.status,
+                                   trailerBuf := acc, finished := true }
+        (if st.sendChunked then { st2 with wq := st2.wq ++ data } else st2, true)
       | _ =>
         let st2 : St := { st1 with dc := some d'' }
         (if st.sendChunked then { st2 with wq := st2.wq ++ data } else st2, true)
@@ -495,7 +499,10 @@ def backendDone (cfg : Cfg) (st : St) : St :=
   else if st.cstate = .handle && !st.started then
     { st with status := if st.status < 500 && st.status ≠ 400 then 500 else st.status, handler := false }
   else if !st.finished then
-    { (if cfg.ver = 1 then chunkClose st else st) with finished := true }
+    -- fewer bytes than the announced Content-Length: the connection cannot be reused
+    -- (missing in the pinned C: reported defect)
+    let st1 : St := if st.scratch > 0 then { st with keepAlive := false } else st
+    { (if cfg.ver = 1 then chunkClose st1 else st1) with finished := true }
   else st
 
 /-- http_response_backend_error() -/
@@ -674,9 +681,7 @@ def subrequestWaits (st : St) : Bool := st.open_
 
 /-- http_response_handler(): `true` = response start (headers can be sent) -/
 def handlerStarts (cfg : Cfg) (st : St) : Bool :=
-  if st.handler && subrequestWaits st then
-    st.finished || (st.started && cfg.streaming)
-  else true
+  if subrequestWaits st then st.finished || (st.started && cfg.streaming) else true
 
 def flush (st : St) : St := { st with evs := pushW st.evs st.wq, wq := [] }
 
@@ -684,6 +689,7 @@ def flush (st : St) : St := { st with evs := pushW st.evs st.wq, wq := [] }
 def conStep (cfg : Cfg) (st : St) : St :=
   match st.cstate with
   | .done => st
+  | .redispatch => st
   | .handle =>
     if !handlerStarts cfg st then st
     else
@@ -717,12 +723,19 @@ def conStep (cfg : Cfg) (st : St) : St :=
       let st1 := flush st
       if st1.finished then { st1 with cstate := .done } else st1
 
+/-- http_response_handler() finds handler_module NULL before the response started (an unusable
+    Status field inside a 1xx block clears it while the backend context lives on): it would run
+    http_response_prepare() again -/
+def lostHandler (st : St) : Bool := st.cstate = .handle && !st.handler && st.open_
+
 def onData (cfg : Cfg) (st : St) (seg : Bytes) : St :=
-  if st.cstate = .done || !st.open_ || seg.isEmpty then st
+  if st.cstate = .done || st.cstate = .redispatch || !st.open_ || seg.isEmpty then st
+  else if lostHandler st then { st with evs := st.evs ++ [.redispatch], cstate := .redispatch }
   else conStep cfg (gwRecvData cfg st seg)
 
 def onEnd (cfg : Cfg) (st : St) (e : End) : St :=
-  if st.cstate = .done || !st.open_ then st
+  if st.cstate = .done || st.cstate = .redispatch || !st.open_ || e = .none then st
+  else if lostHandler st then { st with evs := st.evs ++ [.redispatch], cstate := .redispatch }
   else conStep cfg (gwRecvEnd cfg st e)
 
 def relay (cfg : Cfg) (segs : List Bytes) (e : End) : St :=
